@@ -286,6 +286,17 @@ func checkMsg(e Expect, msg any) []defect {
 		if _, has := m["id"]; has {
 			add("notification-with-id", "")
 		}
+		// MCP: params?: object — `null` (or any other non-object) is not "no params"
+		if p, has := m["params"]; has {
+			if _, ok := isObj(p); !ok {
+				add("notification-params", fmt.Sprintf("params is %v, not an object", p))
+			}
+		}
+		for k := range m {
+			if k != "jsonrpc" && k != "method" && k != "params" {
+				add("notification-extra-member", k)
+			}
+		}
 		return ds
 	}
 	id, hasID := m["id"]
